@@ -7,7 +7,7 @@ META = {
     "rule": "V1 name class per Definition variant (path-sensitive walk of rename's match); "
             "V2 exactly-one-token gate; V3 locality gate on prepare_rename and rename; "
             "V4 sibling agreement of the gate sets; V5 server forwards new_name / maps Err; V6 a package's locality is computed from its own root path (build/packages) only; V7 both dependency tables of gleam.toml are followed. "
-            "An obligation is non-trivial when its verdict needed a path or dominance argument. V3 also: the package whose locality is asked is that of Definition::module(..) of find_def's result, not of the cursor's file. V8 every TextEdit of rename is built under an is_local test of the package of the file the use was found in. V9 is_local is computed from the text of the root path (no file-system call); V10 lower_vfs deals files to the longest matching root. V11 the per-module locality test is built on Package::is_local of the module\u2019s own package.",
+            "An obligation is non-trivial when its verdict needed a path or dominance argument. V3 also: the package whose locality is asked is that of Definition::module(..) of find_def's result, not of the cursor's file. V8 every TextEdit of rename is built under an is_local test of the package of the file the use was found in. V9 is_local is computed from the text of the root path (no file-system call); V10 lower_vfs deals files to the longest matching root. V11 the per-module locality test is built on Package::is_local of the module\u2019s own package. V12 the name classes are those of the lexer's table. V13 = C05/S20 (a module qualifier is recorded as one whether or not its member resolves: rename must not take it for a same-named function).",
     "explanation": "Decides the validation/gating clauses of C08 for every input at once by reading "
                    "the MIR of ide::ide::rename::{rename,prepare_rename,find_def} and the LSP handler: "
                    "each Definition variant must reach success only through a comparison of the lexed "
@@ -314,6 +314,9 @@ def run(F, res, tier):
     locality_comes_from_the_registered_path(F, res)
     module_locality_implies_package_locality(F, res)
     name_classes_of_the_lexer(F, res)
+    # prepare_rename/rename refuse a module qualifier: they see it as one only through the recorded module resolution
+    from rules import c05 as _c05q
+    _c05q.module_qualifier_is_always_recorded(F, res, rule="V13")
 
 
 # gleam.toml tables whose entries `gleam deps download` puts under build/packages (Gleam manifest format)
